@@ -385,7 +385,8 @@ def inline_call(fd, c, hd, serial):
         if target is not None:
             nb["succs"] = [target]
         cfg["blocks"].append(nb)
-    cfg["blocks"].append(b2)
+    if any(b2["id"] in [x for x in nb_["succs"]] for nb_ in cfg["blocks"]):
+        cfg["blocks"].append(b2)
     fd.setdefault("inlined", []).append(hd["name"])
     return True
 
